@@ -1,7 +1,8 @@
 /-
 C15 — the C++ type grammar over which the structural type traits are modelled (DESIGN §4 C15 (c)).
 
-`CType` is the abstract syntax of C++ types built from the builtin types, four enumerations, a class
+`CType` is the abstract syntax of C++ types built from the builtin types, eight enumerations (underlying types of 1, 2, 4 and 8 bytes, signed and
+unsigned, scoped and unscoped), a class
 and a union by cv-qualification, pointers, pointers to members of `Cls`, references, arrays of known
 and unknown bound, and function types with cv-, ref- and noexcept-qualifiers.  The *language* facts
 that both the model of tetl (Model.lean) and the specification (Spec.lean) rely on are here:
@@ -32,6 +33,10 @@ inductive Base where
   | enumUF    -- `enum EUF : short { euf0 }`         (unscoped, fixed underlying type)
   | enumS     -- `enum class ES { a, b }`            (scoped, underlying type int)
   | enumSC    -- `enum class ESC : unsigned char`    (scoped, fixed underlying type)
+  | enumSS    -- `enum ESS : signed char { ess0 }`   (unscoped, 1 byte, signed)
+  | enumUS    -- `enum class EUS : unsigned short`   (scoped, 2 bytes, unsigned)
+  | enumL     -- `enum class EL : long`              (scoped, 8 bytes, signed)
+  | enumULL   -- `enum EULL : unsigned long long { eull0 }` (unscoped, 8 bytes, unsigned)
   | cls       -- `struct Cls { int m; void f(); }`
   | uni       -- `union Uni { int i; float f; }`
   deriving Repr, DecidableEq, Inhabited
@@ -151,11 +156,13 @@ def Base.name : Base → String
   | .short => "short" | .ushort => "ushort" | .int => "int" | .uint => "uint" | .long => "long"
   | .ulong => "ulong" | .llong => "llong" | .ullong => "ullong" | .float => "float" | .double => "double"
   | .ldouble => "ldouble" | .enumU => "EU" | .enumUF => "EUF" | .enumS => "ES" | .enumSC => "ESC"
+  | .enumSS => "ESS" | .enumUS => "EUS" | .enumL => "EL" | .enumULL => "EULL"
   | .cls => "Cls" | .uni => "Uni"
 
 def Base.all : List Base :=
   [.void, .nullptr, .bool, .char, .schar, .uchar, .wchar, .char8, .char16, .char32, .short, .ushort, .int, .uint,
-   .long, .ulong, .llong, .ullong, .float, .double, .ldouble, .enumU, .enumUF, .enumS, .enumSC, .cls, .uni]
+   .long, .ulong, .llong, .ullong, .float, .double, .ldouble, .enumU, .enumUF, .enumS, .enumSC, .enumSS, .enumUS, .enumL, .enumULL,
+   .cls, .uni]
 
 /-- the C++ spelling of a base type in the harness translation unit (blank-free aliases) -/
 def Base.cpp : Base → String
